@@ -2,7 +2,7 @@
 From Coq Require Import ZArith Reals List Lra Lia.
 From Flocq Require Import Core.Raux.
 From EG Require Import Num.Num Num.RNum Lib.Vec Model.Types Model.Curve Model.Closest.
-From EG Require Import Proofs.VecR Proofs.Closest.
+From EG Require Import Proofs.VecR Proofs.Closest Proofs.ClosestTri.
 Import ListNotations.
 Local Open Scope R_scope.
 
@@ -33,8 +33,33 @@ Theorem C02_plane_projection : forall (q a n x : @V3 RNum), 0 < dot3 n n -> dot3
 Proof. exact plane_projection_opt. Qed.
 Print Assumptions C02_plane_projection.
 
+(* triangles, whole: for a triangle of non-zero area the specification's point is a point of the triangle (a convex
+   combination of its vertices) and no point of the closed triangle is nearer - also when the plane projection falls
+   outside and an edge point is returned *)
+Theorem C02_triangle : forall (a b c q : @V3 RNum), 0 < nn a b c ->
+  (exists u v w, 0 <= u /\ 0 <= v /\ 0 <= w /\ u + v + w = 1 /\ @tri_closest RNum q a b c = comb a b c u v w) /\
+  forall u v w, 0 <= u -> 0 <= v -> 0 <= w -> u + v + w = 1 ->
+    dsq (@VO3 RNum) q (@tri_closest RNum q a b c) <= dsq (@VO3 RNum) q (comb a b c u v w).
+Proof. intros a b c q Hn. split; [apply tri_closest_in; exact Hn | intros u v w Hu Hv Hw Hs; apply tri_closest_opt; assumption]. Qed.
+Print Assumptions C02_triangle.
+
+(* meshes: the scan over the faces reports the specification's point on the reported face at its distance, and no
+   point of any face of the mesh is nearer (global optimum over the continuum of every face) *)
+Theorem C02_mesh : forall (q : @V3 RNum) (verts : list (@V3 RNum)) (faces : list (nat * nat * nat)),
+  faces <> [] -> (forall f, In f faces -> nondeg verts f) ->
+  exists d2 i cpt, @mesh_closest RNum q verts faces = Some (d2, i, cpt) /\ (i < length faces)%nat /\
+    cpt = @tri_closest RNum q (fa verts (nth i faces dface)) (fb verts (nth i faces dface)) (fc verts (nth i faces dface)) /\
+    d2 = dsq (@VO3 RNum) q cpt /\
+    forall j u v w, (j < length faces)%nat -> 0 <= u -> 0 <= v -> 0 <= w -> u + v + w = 1 ->
+      d2 <= dsq (@VO3 RNum) q (face_pt verts (nth j faces dface) u v w).
+Proof. exact mesh_closest_opt. Qed.
+Print Assumptions C02_mesh.
+
 Example C02_nonvacuous : exists r, poly_closest (@VO2 RNum) ((0%R, 1%R) : @V2 RNum) [((-1)%R, 0%R); (1%R, 0%R)] = Some r.
 Proof.
   destruct (poly_closest_opt (@VO2 RNum) inner2 ((0%R, 1%R) : @V2 RNum) [((-1)%R, 0%R); (1%R, 0%R)]) as (d2 & i & t & c & E & _); [cbn; lia|].
   eexists. exact E.
 Qed.
+
+Example C02_triangle_nonvacuous : 0 < nn ((0, 0, 0) : @V3 RNum) ((1, 0, 0) : @V3 RNum) ((0, 1, 0) : @V3 RNum).
+Proof. unfold nn, nrm. vec_unfold. lra. Qed.
